@@ -11,21 +11,55 @@ serial API is C03's business); everything else is independent of the library's h
 import struct
 
 
+_SPEC = []
+
+
+def own_decode(line):
+    """The wire format as property C02 states it: trailing white space stripped, six ';'-separated fields,
+    five integers (Python's int()) and the payload text.  None for anything else."""
+    parts = line.rstrip().split(";")
+    if len(parts) != 6:
+        return None
+    try:
+        head = [int(x) for x in parts[:5]]
+    except ValueError:
+        return None
+    return tuple(head) + (parts[5],)
+
+
 def accepted(line, version):
-    """(msg fields) if the line decodes and validates for the version, else None."""
+    """(msg fields) if the line is a well-formed frame that the serial API of `version` accepts, else None.
+    Judged from the reference tables (spec/serial_api.json, the evaluator of C03), not by the code under
+    test; the code's own validator is consulted only where the reference leaves a payload unjudged (exotic
+    version strings)."""
+    f = own_decode(line)
+    if f is None:
+        return None
+    if not _SPEC:
+        from . import c03
+        _SPEC.append(c03.load_spec())
+        _SPEC.append(c03.spec_accepts)
+    key = version if version in _SPEC[0]["versions"] else None
+    verdict = _SPEC[1](_SPEC[0], key, *f) if key is not None else None
+    if verdict is None:
+        verdict = repo_accepts(line, version)
+    return f if verdict else None
+
+
+def repo_accepts(line, version):
     from mysensors.message import Message
     import voluptuous as vol
     try:
         m = Message(line)
     except ValueError:
-        return None
+        return False
     try:
         m.validate(version)
     except vol.Invalid:
-        return None
+        return False
     except Exception:  # noqa: BLE001  an internal error of the validator: not accepted (logic() will show it)
-        return None
-    return (m.node_id, m.child_id, m.type, m.ack, m.sub_type, m.payload)
+        return False
+    return True
 
 
 def canon(node, child, typ, ack, sub, payload):
